@@ -46,6 +46,7 @@ PLAIN = [
     ("CcSyntax", {"Defects": '{"case_sensitive"}', "Tier": '"quick"', "Export": "FALSE"}, "ParseExact", None),
     ("CcSyntax", {"Defects": '{"first_line_only"}', "Tier": '"quick"', "Export": "FALSE"}, "ParseExact", None),
     ("CcSyntax", {"Defects": '{"naive_split"}', "Tier": '"quick"', "Export": "FALSE"}, "ParseExact", None),
+    ("CcSyntax", {"Defects": '{"last_wins"}', "Tier": '"quick"', "Export": "FALSE"}, "ParseExact", None),
     ("CcSyntax", {"Defects": '{"no_quoted_args"}', "Tier": '"quick"', "Export": "FALSE"}, "CanonicalOK", None),
     ("Footprint", {"Defects": '{"append_dup"}', "URIs": "{0}", "ValsA": "{0, 1}", "ValsB": "{0}", "VarySets": "{0, 4}", "Export": "FALSE", "MaxHist": "0"}, "Bounded", None),
     ("FsLayout", {"DirMarker": "FALSE", "Threshold": "1", "Frag": "2", "MaxLen": "4"}, "NoFailure", "Small"),
